@@ -71,7 +71,9 @@ DropTrailingSplits(ds) == IF ds # <<>> /\ ds[Len(ds)].act = "Split" THEN DropTra
 (* ---- same ---- *)
 JudgeSame(p) ==
   LET a == p.a  b == p.b IN
-  Chk(Len(a.rows) = Len(b.rows) /\ \A n \in DOMAIN a.rows : SameRowInput(a.rows[n], b.rows[n]), "harness", "inputs differ",
+  \* the two inputs give this security the same rows in the same processing order (settlement day,
+  \* then position in the concatenated input)
+  Chk(Len(a.rows) = Len(b.rows) /\ \A n \in DOMAIN a.rows : SameRowInput(Order(a.rows)[n], Order(b.rows)[n]), "harness", "inputs differ",
   Chk(a.status = b.status, p.cls, "one run ended " \o a.status \o ", the other " \o b.status,
   LET ad == IF a.status = "ok" THEN a.deltas ELSE DropTrailingSplits(a.deltas)
       bd == IF a.status = "ok" THEN b.deltas ELSE DropTrailingSplits(b.deltas) IN
@@ -130,8 +132,52 @@ JudgeSplit(p) ==
   Chk(k = 0, "split", "figures differ at " \o DescribeDelta(a.deltas[IF k = 0 THEN 1 ELSE k])
                        \o (IF k > nb THEN " (after the split)" ELSE " (before the split)"), OkV)))))
 
+(* ---- aggsum: the report of a whole input against the reports of its parts ---- *)
+V(o) == D(o.v)
+OptSame(x, y) == x.has = y.has /\ (x.has => REq(V(x), V(y)))
+YearsSet(f) == { f.years[n][1] : n \in DOMAIN f.years }
+YearVal(f, y) == V(f.years[CHOOSE n \in DOMAIN f.years : f.years[n][1] = y][2])
+RowSame(x, y) ==
+  /\ x.act = y.act /\ x.sd = y.sd /\ x.td = y.td /\ x.af = y.af
+  /\ (x.act # "Split" => /\ OptSame(x.amount, y.amount) /\ OptSame(x.acbOfSale, y.acbOfSale) /\ OptSame(x.comm, y.comm)
+                          /\ OptSame(x.gain, y.gain) /\ OptSame(x.sfl, y.sfl) /\ x.over = y.over
+                          /\ OptSame(x.acbDelta, y.acbDelta) /\ OptSame(x.newAcb, y.newAcb) /\ OptSame(x.acbPerShare, y.acbPerShare))
+TableSame(t, u) ==
+  LET tr == IF t.errors = <<>> THEN t.rows ELSE DropTrailingSplits(t.rows)
+      ur == IF t.errors = <<>> THEN u.rows ELSE DropTrailingSplits(u.rows)
+  IN
+  \* (a rejection raised by one of the per-affiliate copies of a split names whichever copy was
+  \* processed first, so the wording is not compared - only whether the security was rejected)
+  /\ Len(t.errors) = Len(u.errors)
+  /\ Len(tr) = Len(ur)
+  \* (the copies of one split for all affiliates may come in any order: only their presence is compared here)
+  /\ \A n \in DOMAIN tr : IF tr[n].act = "Split" THEN ur[n].act = "Split" /\ ur[n].sd = tr[n].sd ELSE RowSame(tr[n], ur[n])
+  /\ OptSame(t.total, u.total) /\ YearsSet(t) = YearsSet(u) /\ Len(t.years) = Len(u.years)
+  /\ \A y \in YearsSet(t) : REq(YearVal(t, y), YearVal(u, y))
+RSumIdx(T, f(_)) ==
+  LET RECURSIVE go(_)
+      go(U) == IF U = {} THEN RZero ELSE LET x == CHOOSE x \in U : TRUE IN RAdd(f(x), go(U \ {x}))
+  IN go(T)
+JudgeAggSum(p) ==
+  LET W == p.whole
+      PartOf(sec) == { <<k, n>> \in (DOMAIN p.parts) \X (1..20) : n \in DOMAIN p.parts[k].secs /\ p.parts[k].secs[n].sec = sec }
+      ys == UNION { YearsSet(p.parts[k].agg) : k \in DOMAIN p.parts }
+      bad == { n \in DOMAIN W.secs :
+                 ~(Cardinality(PartOf(W.secs[n].sec)) = 1 /\
+                   \A kn \in PartOf(W.secs[n].sec) : TableSame(p.parts[kn[1]].secs[kn[2]], W.secs[n])) }
+  IN
+  Chk(bad = {}, p.cls, "the table of " \o W.secs[IF bad = {} THEN 1 ELSE CHOOSE n \in bad : TRUE].sec
+                         \o " differs between the whole input and the part that contains it",
+  Chk(YearsSet(W.agg) = ys /\ Len(W.agg.years) = Cardinality(ys), p.cls, "aggregate gains cover different years",
+  Chk(\A y \in ys : RClose(YearVal(W.agg, y),
+                            RSumIdx({ k \in DOMAIN p.parts : y \in YearsSet(p.parts[k].agg) }, LAMBDA k : YearVal(p.parts[k].agg, y)), Eps),
+      p.cls, "aggregate yearly gains are not the sum of the parts' own totals",
+  Chk(RClose(V(W.agg.total), RSumIdx(DOMAIN p.parts, LAMBDA k : V(p.parts[k].agg.total)), Eps),
+      p.cls, "aggregate total is not the sum of the parts' own totals", OkV))))
+
 Judge(p) ==
   CASE p.kind = "same" -> JudgeSame(p)
+    [] p.kind = "aggsum" -> JudgeAggSum(p)
     [] p.kind = "opening" -> JudgeOpening(p)
     [] p.kind = "split" -> JudgeSplit(p)
     [] OTHER -> FailV("harness", "unknown relation " \o p.kind)
